@@ -21,6 +21,8 @@ func main() {
 		os.Exit(cmdCheck(os.Args[2:]))
 	case "list":
 		cmdList(os.Args[2:])
+	case "stress":
+		cmdStress(os.Args[2:])
 	case "axioms":
 		cmdAxioms(os.Args[2:])
 	case "baseline":
